@@ -795,6 +795,9 @@ func runC05(cfg *vh.Config) error {
 			}()
 			files, cerr = compile.Compile(ctx, map[string]string{strings.ReplaceAll(p.Pkg, ".", "/") + "/a.j5s": src}, p.Pkg)
 		}()
+		if i < 0 && cerr == nil {
+			res.Fail(vh.Failure{Case: caseNo, Stream: "compiled", Sig: "C05 package with non-ASCII identifiers -> accepted by the compiler (names that are not protobuf identifiers must be a compile error, /repo c71d8d9)", Clause: "parsing and linking the printed text yields a descriptor", Input: input, Got: "compiled"})
+		}
 		if cerr != nil {
 			res.Count("compiled:rejected by the compiler")
 			if len(res.Notes) < 12 {
